@@ -41,6 +41,10 @@ func main() {
 			fmt.Printf("witness search %s: failing input %s\n%s\n", *witness, input, truncate(out, 1500))
 			os.Exit(1)
 		}
+		if !strings.Contains(out, "REPLAY-STATS") {
+			fmt.Printf("witness search %s: the driver did not finish (no result)\n%s\n", *witness, truncate(lastLines(out, 25), 3000))
+			os.Exit(2)
+		}
 		fmt.Printf("witness search %s: nothing found\n%s\n", *witness, truncate(lastLines(out, 6), 1500))
 		os.Exit(0)
 	}
